@@ -369,6 +369,37 @@ prop("C20",
      )
 
 
+# ---------------------------------------------------------------------------------------------
+# C12 shared schema
+prop("C12",
+     family="shared", race=True,
+     mc=lambda tier: [("MC_SharedSchema", "MC_SharedSchema_2x1.cfg")],
+     gen=lambda tier: [("MC_SharedSchema", "MC_SharedSchema_2x1.cfg"),
+                       ("MC_SharedSchema", "Sim_SharedSchema.cfg", ["-simulate", "num=%d" % _t(tier, 150, 4000), "-depth", "200"])],
+     driver=lambda tier, seed, gen, out: ["shared", "-gen", gen, "-out", out, "-seed", str(seed)] +
+     _t(tier, ["-reps", "1"], ["-reps", "5"]),
+     trace=("Trace_SharedSchema", "Trace_SharedSchema.cfg"),
+     required=["footprint:Rels", "footprint:ParseURL", "footprint:UnmarshalDocument", "footprint:NewResource",
+               "sched:overlapping", "sched:sequential"],
+     level_text="The schema's memory is five abstract locations and every listed operation has a footprint; TLC "
+                "explores every interleaving of Begin/End of two processes (all 81 ordered pairs, 486 schedules) and "
+                "checks that no two overlapping operations conflict and that the schema never changes, and exhibits "
+                "the two-process counterexample under the pinned code's footprint (Rels writing its cache). The "
+                "footprint table is checked against the code by running each operation alone between deep snapshots "
+                "holding content and identity of the Types slice, every map and every unexported field. Every "
+                "TLC-generated schedule - plus simulated schedules of 4 processes x 3 operations - is replayed in a child "
+                "process built with -race: a controller releases and awaits one goroutine per process in schedule "
+                "order, so operations are unordered by happens-before exactly when they overlap in the schedule.",
+     level_note="Instruction-level interleaving is the Go scheduler's; what is controlled is happens-before, which is "
+                "what the race detector judges. Race reports are counted only when they contain a frame of the "
+                "library; a report without one is an infrastructure error.",
+     assumptions=["the race detector's shadow memory keeps the conflicting access (schedules are repeated in the thorough tier)",
+                  "every goroutine owns its inputs, built before the start gate"],
+     trusted=["the Go race detector"],
+     coverage=False,
+     )
+
+
 def run(pid, tier, seed):
     P = PROPS[pid]
     if "run" in P:
@@ -381,7 +412,9 @@ def run_family(pid, tier, seed):
     t0 = time.time()
     scr = V.Scratch(pid)
     try:
-        drv = V.build_driver(race=P.get("race", False))
+        drv = V.build_driver()
+        if P.get("race"):
+            racebin = V.build_driver(race=True)
         mcs = []
         for (mod, cfg) in list(P["mc"](tier)) + list(P.get("mc_extra", [])):
             mcs.append(V.model_check(scr, mod, cfg, coverage=(tier == "thorough" and P.get("coverage", True))))
@@ -395,6 +428,8 @@ def run_family(pid, tier, seed):
             gen_path = ",".join(paths)
         evdir = scr.sub("ev")
         env = dict(VERIF_SEED=str(seed), VERIF_TIER=tier)
+        if P.get("race"):
+            env["VERIF_RACE_DRIVER"] = racebin
         V.run_driver(drv, P["driver"](tier, seed, gen_path, evdir), env=env)
         for gp in gen_path.split(","):
             if gp:
@@ -451,8 +486,11 @@ def replay(pid, path):
     P = PROPS[pid]
     scr = V.Scratch(pid)
     try:
-        drv = V.build_driver(race=P.get("race", False))
-        ev = V.replay_event(drv, P["family"], path)
+        drv = V.build_driver()
+        env = {}
+        if P.get("race"):
+            env["VERIF_RACE_DRIVER"] = V.build_driver(race=True)
+        ev = V.replay_event(drv, P["family"], path, env=env)
         tmod, tcfg = P["trace"]
         rej = V.judge_single(scr, tmod, tcfg, ev)
         V.log(json.dumps(ev))
